@@ -75,6 +75,8 @@ static void part_a_trunc(const std::string& part, const std::string& doc)
 
 static std::string clean_name(const std::string& s)
 {
+	if (refxml::name_ok(s)) // any XML 1.0 Name (incl. ':' anywhere, non-ASCII letters) is used as it is
+		return s;
 	std::string r;
 	for (unsigned char c : s) {
 		bool ok = (c >= 'A' && c <= 'Z') || (c >= 'a' && c <= 'z') || c == '_' || (c >= '0' && c <= '9') || c == '.' || c == '-';
@@ -299,12 +301,47 @@ void vf_run_case(const std::string& part, const vf::Case& c)
 
 using namespace rc;
 
+// Names cover the XML 1.0 Name production as far as the unchanged decoder is concerned:
+//   first character: ASCII letter, '_', ':' or a non-ASCII NameStartChar (2-, 3-, 4-byte UTF-8, range edges)
+//   then additionally: digits, '-', '.', ':' and the non-ASCII NameChar-only characters U+B7, U+0301, U+203F
 static const char NAME1[] = "abcxyzABZ_mlXqrstuvwdefghijknopCDEFGHIJKLMNOPQRSTUVWY";
 static const char NAME2[] = "abcxyzABZ_019.-mlXqrstuvwdefghijknop2345678CDEFGHIJKLMNOPQRSTUVWY";
+static const char* const NAME_HI_START[] = {"\xc3\xa9" /*U+E9*/, "\xce\xa0" /*U+3A0*/, "\xcf\x81" /*U+3C1*/, "\xe3\x82\xa2" /*U+30A2*/, "\xe4\xb8\xad" /*U+4E2D*/,
+                                            "\xf0\x90\x80\x80" /*U+10000*/, "\xc3\x80" /*U+C0*/, "\xcb\xbf" /*U+2FF*/, "\xef\xbf\xbd" /*U+FFFD*/,
+                                            "\xf3\xaf\xbf\xbf" /*U+EFFFF*/, "\xc3\xb8" /*U+F8*/, "\xed\x9f\xbf" /*U+D7FF*/};
+static const char* const NAME_HI_CONT[] = {"\xc2\xb7" /*U+B7*/, "\xcc\x81" /*U+301*/, "\xe2\x80\xbf" /*U+203F*/, "\xcd\xaf" /*U+36F*/};
+static const int N_HI_START = (int)(sizeof NAME_HI_START / sizeof *NAME_HI_START), N_HI_CONT = (int)(sizeof NAME_HI_CONT / sizeof *NAME_HI_CONT);
+
+static std::string name_from_atoms(const std::vector<int>& v)
+{
+	std::string s;
+	for (size_t i = 0; i < v.size(); i++) {
+		int k = v[i] % 100, r = v[i] / 100; // v == 0 (shrink target) -> 'a'
+		if (i == 0) {
+			if (k >= 88)
+				s += ':';
+			else if (k >= 76)
+				s += NAME_HI_START[r % N_HI_START];
+			else
+				s += NAME1[v[i] % (sizeof NAME1 - 1)];
+		}
+		else {
+			if (k >= 93)
+				s += ':';
+			else if (k >= 86)
+				s += NAME_HI_START[r % N_HI_START];
+			else if (k >= 82)
+				s += NAME_HI_CONT[r % N_HI_CONT];
+			else
+				s += NAME2[v[i] % (sizeof NAME2 - 1)];
+		}
+	}
+	return s;
+}
 
 static Gen<std::string> genName()
 {
-	// length 1..6 mostly, sometimes around the 15/16 inline-string boundary and the 19/20 exact-block boundary, rarely long
+	// 1..6 characters mostly, sometimes around the 15/16 inline-string boundary and the 19/20 exact-block boundary, rarely long
 	auto len = gen::mapcat(vf::irange<int>(0, 19), [](int k) -> Gen<int> {
 		if (k < 14)
 			return vf::irange<int>(1, 6);
@@ -312,14 +349,7 @@ static Gen<std::string> genName()
 			return vf::irange<int>(13, 21);
 		return vf::irange<int>(22, 70);
 	});
-	return gen::mapcat(len, [](int n) {
-		return gen::map(gen::container<std::vector<int>>((size_t)n, vf::irange<int>(0, 1000)), [](const std::vector<int>& v) {
-			std::string s;
-			for (size_t i = 0; i < v.size(); i++)
-				s += i == 0 ? NAME1[v[i] % (sizeof NAME1 - 1)] : NAME2[v[i] % (sizeof NAME2 - 1)];
-			return s;
-		});
-	});
+	return gen::mapcat(len, [](int n) { return gen::map(gen::container<std::vector<int>>((size_t)n, vf::irange<int>(0, 9999)), name_from_atoms); });
 }
 
 static const char* const WORDS[] = {"&amp;", "&lt;", "&gt;", "&quot;", "&apos;", "&#38;", "&#x3c;", "&#", "&#x", "&;", "<!--", "-->", "<![CDATA[", "]]>",
@@ -581,7 +611,8 @@ static const char* const SOUP[] = {"<a>", "</a>", "<a/>", "<b>", "</b>", "</>", 
                                    "text", " ", "\n", "&amp;", "&lt;", "&#65;", "&#x41;", "&#;", "&#x;", "&", ";", "&#x1F600;", "&#99999999999;", "&#-1;",
                                    "<!--", "-->", "-", "--", "<!", "<!DOCTYPE a [", "<!ELEMENT a (b)>", "]>", "<?", "?>", "<?xml", "<?xml version=\"1.0\"?>",
                                    "<?p d?>", "<c x='&lt;' y=\"&amp;\">", "</c>", "<d ", "/", "<!---->", "<a:b>", "</a:b>", "\xc3\xa9", "<\xc3\xa9>", "</\xc3\xa9>",
-                                   "<3>", "<a$>", "<a b>", "<a b=c>", "<a b='", "<a b=\"", "<![CDATA[", "]]>", "\xff", "<_/>", "<a.b-c/>", "\t", "\r"};
+                                   "<3>", "<a$>", "<a b>", "<a b=c>", "<a b='", "<a b=\"", "<![CDATA[", "]]>", "\xff", "<_/>", "<a.b-c/>", "\t", "\r",
+                                   "<:a>", "</:a>", "<:a :b='1'/>", " :c=\"2\"", ":", "<\x7f>", "<a\xc2\xb7/>", "<-a>", "<.a>", "<1:a>"};
 static const int NSOUP = (int)(sizeof SOUP / sizeof *SOUP);
 
 static std::string damage(std::string s, const std::vector<std::tuple<int, int, int>>& muts)
@@ -656,7 +687,24 @@ static Gen<vf::Case> genSoupCase()
 
 struct TreeFacts {
 	int escapes = 0, hibytes = 0, texts = 0, adjacent = 0, wsonly = 0, attrs = 0, soleText = 0, elements = 0, mixed = 0;
+	int tagColon1 = 0, attrColon1 = 0, nameHi1 = 0, nameColonIn = 0, nameHi = 0;
 };
+static void name_facts(const std::string& nm, bool attr, TreeFacts& f)
+{
+	if (nm.empty())
+		return;
+	if (nm[0] == ':')
+		(attr ? f.attrColon1 : f.tagColon1)++;
+	if ((unsigned char)nm[0] >= 0x80)
+		f.nameHi1++;
+	if (nm.find(':', 1) != std::string::npos)
+		f.nameColonIn++;
+	for (unsigned char c : nm)
+		if (c >= 0x80) {
+			f.nameHi++;
+			break;
+		}
+}
 static void facts(const Node& n, TreeFacts& f)
 {
 	auto scan = [&](const std::string& s) {
@@ -675,9 +723,11 @@ static void facts(const Node& n, TreeFacts& f)
 		return;
 	}
 	f.elements++;
+	name_facts(n.s, false, f);
 	for (auto& kv : n.attrs) {
 		f.attrs++;
 		scan(kv.second);
+		name_facts(kv.first, true, f);
 	}
 	bool hasText = false;
 	for (size_t i = 0; i < n.kids.size(); i++) {
@@ -722,6 +772,16 @@ static void classify_tree(const vf::Case& c)
 		st.cls("B.has_mixed_content");
 	if (f.elements >= 20)
 		st.cls("B.elements.ge20");
+	if (f.tagColon1)
+		st.cls("B.name.tag_starts_with_colon");
+	if (f.attrColon1)
+		st.cls("B.name.attr_starts_with_colon");
+	if (f.nameHi1)
+		st.cls("B.name.starts_with_nonascii");
+	if (f.nameColonIn)
+		st.cls("B.name.colon_inside");
+	if (f.nameHi)
+		st.cls("B.name.has_nonascii");
 	if (st.evaluations % 997 == 5)
 		st.sample("B tree -> " + vf::show(refxml::to_std(Xml::encode(to_asl(root), false)), 300));
 }
@@ -785,6 +845,10 @@ void vf_search(const vf::Args& a)
 				st.cls("A.doc.charref");
 			if (d.find("</>") != std::string::npos)
 				st.cls("A.doc.empty_close_tag");
+			if (d.find("<:") != std::string::npos)
+				st.cls("A.doc.tag_starts_with_colon");
+			if (d.find(" :") != std::string::npos || d.find("\t:") != std::string::npos || d.find("\n:") != std::string::npos)
+				st.cls("A.doc.attr_starts_with_colon");
 			if (st.evaluations % 499 == 3)
 				st.sample("A doc: " + vf::show(d, 300));
 		});
@@ -804,7 +868,7 @@ void vf_search(const vf::Args& a)
 		enumerate("tags", {"<a>", "</a>", "<a/>", "</>", "x", "<b>", "</b>", "&lt;", "<!--c-->", " "}, a.quick() ? 5 : 6, a);
 	}();
 	[&]() {
-		enumerate("chars", {"<", ">", "/", "a", "!", "-", "?", "&", ";", "#", "=", "'", " "}, a.quick() ? 5 : 6, a);
+		enumerate("chars", {"<", ">", "/", "a", "!", "-", "?", "&", ";", "#", "=", "'", " ", ":"}, a.quick() ? 5 : 6, a);
 	}();
 	lap("enum");
 	// (B) generated trees, compact and indented round trips
